@@ -62,6 +62,21 @@ def after (step : σ → σ × Step β) : Nat → σ → σ
   | 0, s => s
   | k + 1, s => after step k (step s).1
 
+/-- the first `n` answers of a machine, as a script (a pull is used through its answers only) -/
+def trace (step : σ → σ × Step β) : Nat → σ → Src β
+  | 0, _ => []
+  | n + 1, s => (step s).2 :: trace step n (step s).1
+
+/-- the size hints after each of the first `n` answers -/
+def traceHints (step : σ → σ × Step β) (hint : σ → Hint) : Nat → σ → List Hint
+  | 0, _ => []
+  | n + 1, s => hint (step s).1 :: traceHints step hint n (step s).1
+
+/-- the hint of a traced machine as a function of what is left of its trace -/
+def traceHint (hint0 : Hint) (hints : List Hint) (total : Nat) (rem : Src β) : Hint :=
+  let k := total - rem.length
+  if k = 0 then hint0 else hints.getD (k - 1) (0, none)
+
 /-- once `Ended`, `Ended` on every later poll -/
 def FusedAt (step : σ → σ × Step β) (s : σ) : Prop :=
   ∀ k, (step (after step k s)).2 = .ended → ∀ j, (step (after step (k + 1 + j) s)).2 = .ended
